@@ -295,6 +295,7 @@ private:
   static tdigest deserialize_compat(const void* bytes, size_t size, const Allocator& allocator = Allocator());
 
   static inline void check_split_points(const T* values, uint32_t size);
+  static inline void check_sizes(uint16_t k, uint32_t num_centroids, uint32_t num_buffered);
 };
 
 } /* namespace datasketches */
